@@ -663,8 +663,12 @@ impl<C: Config, Q: Query> Snapshot<C, Q> {
     ) {
         self.upgrade_to_exclusive().await;
         let timsestamp = caller_information.timestamp();
+        let active_computation_guard =
+            caller_information.clone_active_computation_guard();
 
         async move {
+            let _active_computation_guard = active_computation_guard;
+
             self.clean_query(clean_edges, new_tfc, timsestamp).await;
 
             lock_guard.done();
